@@ -306,6 +306,18 @@ def rule_r2(rep, program: Program, et: ExcTypes):
     for s in start_succ:
         again += can_avoid(cfg, s, set(), {call}, pruned)
     rets = [n for n in cfg.nodes if n.kind == "stmt" and isinstance(n.ast, ast.Return)]
+    # an interrupted stage leaves the adapters with partial statistics (possibly of only some chains): finalising
+    # them can raise (AdaptationError for fewer than two samples, zip(strict=True) for fewer states than generators),
+    # so the interrupt path must reach the return without calling _finalize_adapters
+    fins = _call_nodes(cfg, lambda c: norm(c.func) == "_finalize_adapters")
+    fin_on_interrupt = []
+    for s in start_succ:
+        fin_on_interrupt += [x for x in can_avoid(cfg, s, set(), set(fins), pruned) if x in fins]
+    r.inst({"function": "sample_chains", "finalises adapters after an interrupted stage": bool(fin_on_interrupt), "finalisation call sites": len(fins)})
+    if not fins:
+        raise AnalysisError("sample_chains: _finalize_adapters call not found")
+    if fin_on_interrupt:
+        r.violate(PROP, "sample_chains:finalize-after-interrupt", "after a stage that was interrupted sample_chains still calls _finalize_adapters before returning: the adapters hold partial statistics (a metric adapter with fewer than two samples raises AdaptationError; in a sequential run fewer final states than generators are passed and zip(strict=True) raises ValueError), so the interrupted call raises instead of returning the recorded prefix", node=fins[0].ast, file=sc.file)
     r.inst({"function": "sample_chains", "starts next stage after interrupt": bool(again)})
     if again:
         r.violate(PROP, "sample_chains:next-stage-after-interrupt", "after an interrupted stage the stage loop goes on to start the next stage", node=call.ast, file=sc.file)
